@@ -249,6 +249,16 @@ def handle (toks : List String) : String :=
     match kvIntMat r "nodes", kv r "order" with
     | some nodes, some o => showMat toString (cartesian nodes (o = "F"))
     | _, _ => "bad-op"
+  | "repeat1d" :: r =>
+    match kvInts r "x", kvNat r "K", kvNat r "total" with
+    | some x, some K, some total =>
+      if K * x.length = 0 then "bad-op" else showList toString (repeat1d x K total)
+    | _, _, _ => "bad-op"
+  | "cindex" :: r =>
+    match kvNats r "ind", kvNats r "nums" with
+    | some ind, some nums =>
+      if ind.length = nums.length then toString (cartesianIndex ind nums) else "bad-op"
+    | _, _ => "bad-op"
   | "nearest" :: r =>
     match kvRatMat r "nodes", kvRats r "x", kv r "order" with
     | some nodes, some x, some o => toString (nearestIndex nodes x (o = "F"))
